@@ -1700,11 +1700,21 @@ class Compiler:
         else:
             render = "render_%s" % mangle(node.name)
         token_reset = template("__token = None")
-        return token_reset + template(
+        return token_reset + self._call_and_merge_globals(template(
             "f(__stream, econtext.copy(), rcontext, "
             "__i18n_domain, __i18n_context, target_language)",
-            f=render) + \
-            template("econtext.update(rcontext)")
+            f=render))
+
+    @staticmethod
+    def _call_and_merge_globals(call):
+        # Global definitions made during the call are copied into the
+        # caller's context; names that the call did not define globally
+        # are left alone (they may be shadowed by a local definition).
+        return template("__globals = rcontext.copy()") + call + template(
+            "for __key, __val in rcontext.items():\n"
+            "    if __globals.get(__key, __marker) is not __val: "
+            "econtext[__key] = __val"
+        )
 
     def visit_DefineSlot(self, node):
         name = "__slot_%s" % mangle(node.name)
@@ -1712,10 +1722,10 @@ class Compiler:
 
         self._slots.add(name)
 
-        orelse = template("__token = None") + template(
-            "SLOT(__stream, econtext.copy(), rcontext)",
-            SLOT=name) + \
-            template("econtext.update(rcontext)")
+        orelse = template("__token = None") + \
+            self._call_and_merge_globals(template(
+                "SLOT(__stream, econtext.copy(), rcontext)",
+                SLOT=name))
         test = ast.Compare(
             left=load(name),
             ops=[ast.Is()],
@@ -1838,11 +1848,10 @@ class Compiler:
             assignment +
             [TokenRef(node.expression.value)] +
             template("__m = __macro.include") +
-            template(
+            self._call_and_merge_globals(template(
                 "__m(__stream, econtext.copy(), "
                 "rcontext, __i18n_domain, __i18n_context, target_language)"
-            ) +
-            template("econtext.update(rcontext)")
+            ))
         )
 
     def visit_Repeat(self, node):
